@@ -317,6 +317,26 @@ def opRun (b : Built) (wr : String) (inputs : String) : String :=
       s!"log=[{joinWith ";" s.log}] out={toHex w.buf} ev={ev} errs={listStr (s.errs.map errStr)} rest={listStr (rests.map toString)} q={queueStr s}"
   | _, _ => "bad-op run"
 
+/-- `RUNF`: like `RUN`, but the inputs are pieces handed to `run_from` one after the other, the header path left by
+one piece being the start path of the next (the first starts at the root). -/
+def opRunFrom (b : Built) (wr : String) (inputs : String) : String :=
+  match parseWriter wr, (inputs.splitOn "|").mapM fromHex with
+  | some (w0, isPt), some ins =>
+    let step := fun (acc : Node × Writer × UState × List Nat × Option Crash) (inp : Bytes) =>
+      let (h, w, s, rests, cr) := acc
+      match cr with
+      | some _ => acc
+      | none =>
+        let out := runFrom b.iface h inp w s
+        (out.header, out.w, out.s, rests ++ [out.rest.length], out.crash)
+    let (_, w, s, rests, cr) := ins.foldl step (b.iface.root, w0, initState b.spec, [], none)
+    match cr with
+    | some c => crashStr c
+    | none =>
+      let ev := if isPt then listStr (mergeEvs w.evs) else "-"
+      s!"log=[{joinWith ";" s.log}] out={toHex w.buf} ev={ev} errs={listStr (s.errs.map errStr)} rest={listStr (rests.map toString)} q={queueStr s}"
+  | _, _ => "bad-op run"
+
 def pevStr : PEv → String
   | .r d n => s!"R{d}/{n}"
   | .w b => s!"W:{toHex b}"
@@ -467,6 +487,10 @@ def runOp (bs : List Built) (line : String) : String :=
   | "RUN" :: name :: wr :: inputs :: _ =>
     match findIface bs name with
     | some b => opRun b wr inputs
+    | none => "bad-op iface"
+  | "RUNF" :: name :: wr :: inputs :: _ =>
+    match findIface bs name with
+    | some b => opRunFrom b wr inputs
     | none => "bad-op iface"
   | "PROC" :: name :: n :: stream :: sched :: opts =>
     match findIface bs name with
